@@ -91,6 +91,8 @@ static int deviation(int n, const char *what)
 static int addr_port(const struct sockaddr *a) { return a->sa_family == AF_INET ? ntohs(((const struct sockaddr_in *)a)->sin_port) : ntohs(((const struct sockaddr_in6 *)a)->sin6_port); }
 static void set_port(struct sockaddr_in6 *a, int port) { if (a->sin6_family == AF_INET) ((struct sockaddr_in *)a)->sin_port = htons(port); else a->sin6_port = htons(port); }
 
+static void kernel_wait(struct KSock *s, int what);
+
 /* ------------------------------------------------------------------ socket / fcntl / options */
 int __wrap_socket(int family, int type, int proto)
 {
@@ -237,6 +239,7 @@ int __wrap_accept(int fd, struct sockaddr *a, socklen_t *l)
     if (deviation(2, "accept")) { get(fd); errno = EINTR; return -1; }
     s = get(fd); if (!s) return -1;
     if (s->state != S_LISTEN) { errno = EINVAL; return -1; }
+    if (!s->nonblock) kernel_wait(s, 0);
     if (ksim_observe) ksim_observe(s, (uint64_t)s->naq);
     if (s->naq == 0) { errno = EAGAIN; return -1; }
     idx = s->aq[0]; for (i = 1; i < s->naq; i++) s->aq[i - 1] = s->aq[i]; s->naq--;
@@ -257,6 +260,7 @@ static ssize_t stream_send(KSock *s, const void *buf, size_t n, int flags)
     if (p->state == S_CLOSED || p->state == S_FREE) { if (!s->sent_after_peer_close) { s->sent_after_peer_close = 1; s->rst = 1; return (ssize_t)n; } check_sigpipe(flags); errno = EPIPE; return -1; }
     dev = n ? deviation(n > 1 ? 3 : 2, "send") : 0;
     if (dev == 1) { errno = EAGAIN; return -1; }           /* spurious would-block although ready */
+    if (!s->nonblock) kernel_wait(s, 3);
     space = ksim_rxcap - p->rxlen;
     if (p->shut_rd) return (ssize_t)n;                    /* peer does not read any more: data is discarded */
     if (space <= 0) { errno = EAGAIN; return -1; }
@@ -296,6 +300,7 @@ static ssize_t stream_recv(KSock *s, void *buf, size_t n)
 {
     size_t k; int dev, i;
     if (s->state != S_CONNECTED) { errno = ENOTCONN; return -1; }
+    if (!s->nonblock) kernel_wait(s, 1);
     if (ksim_observe) ksim_observe(s, (uint64_t)(s->rxlen * 4 + s->peer_fin * 2 + s->rst));
     if (s->shut_rd) return 0;
     if (s->rxlen == 0) { if (s->rst) { errno = ECONNRESET; return -1; } if (s->peer_fin) return 0; errno = EAGAIN; return -1; }
@@ -322,6 +327,7 @@ ssize_t __wrap_recvfrom(int fd, void *buf, size_t n, int flags, struct sockaddr 
     if (deviation(2, "recvfrom-eintr")) { get(fd); errno = EINTR; return -1; }
     s = get(fd); if (!s) return -1;
     if (s->type == SOCK_STREAM) { ssize_t r = stream_recv(s, buf, n); if (r >= 0 && l) *l = 0; return r; }
+    if (!s->nonblock) kernel_wait(s, 2);
     if (ksim_observe) ksim_observe(s, (uint64_t)s->ndq);
     if (s->ndq == 0) { errno = EAGAIN; return -1; }
     if (deviation(2, "recvfrom")) { errno = EAGAIN; return -1; }
@@ -375,6 +381,29 @@ static short revents_of(KSock *s, short ev)
     return r & (ev | POLLERR | POLLHUP);
 }
 static struct pollfd *cur_pfd;
+/* a descriptor without O_NONBLOCK: the system call itself waits until it can proceed */
+typedef struct { KSock *s; int what; } KWait;
+static int kwait_ready(void *arg)
+{
+    KWait *w = arg; KSock *s = w->s;
+    if (s->state == S_CLOSED || s->state == S_FREE) return 1;
+    switch (w->what) {
+    case 0: return s->naq > 0;                                              /* accept */
+    case 1: return s->rxlen > 0 || s->peer_fin || s->rst || s->shut_rd;     /* stream recv */
+    case 2: return s->ndq > 0;                                              /* datagram recv */
+    case 3: { KSock *p = s->peer >= 0 ? &S[s->peer] : NULL; return !p || p->state != S_CONNECTED || ksim_rxcap - p->rxlen > 0 || s->rst || s->shut_wr; }   /* stream send */
+    }
+    return 1;
+}
+static void kernel_wait(KSock *s, int what)
+{
+    KWait w; int timed_out = 0; w.s = s; w.what = what;
+    if (kwait_ready(&w)) return;
+    ksim_blocking_polls++;
+    if (ksim_sched_wait) ksim_sched_wait(kwait_ready, &w, 0, &timed_out);
+    else if (block_jmp) longjmp(*block_jmp, 1);
+    else { fprintf(stderr, "KSIM: a system call on a blocking descriptor would wait forever\n"); abort(); }
+}
 static int poll_ready(void *arg) { struct pollfd *f = arg; KSock *s = ksim_is_fd(f->fd) ? &S[f->fd - KFD0] : NULL; if (!s || s->state == S_FREE || s->state == S_CLOSED) return 1; return revents_of(s, f->events) != 0; }
 int __real_poll(struct pollfd *, nfds_t, int);
 int __wrap_poll(struct pollfd *fds, nfds_t n, int timeout)
